@@ -16,7 +16,37 @@ let show_tag (t : FlvTag.tag) =
     (token_of_n t.FlvTag.tg_header.FlvTag.th_ts)
     (token_of_bytes t.FlvTag.tg_raw)
 
+(* digest of a byte string that may be large: length, md5, first and last 64 bytes *)
+let digest (l : BinNums.coq_N list) : string =
+  let n = Stdlib.List.length l in
+  let buf = Bytes.create n in
+  Stdlib.List.iteri (fun i x -> Bytes.set buf i (Char.chr (int_of_byte x land 0xff))) l;
+  let hex_sub off len =
+    if len = 0 then "-" else begin
+      let b = Buffer.create (2 * len) in
+      for i = off to off + len - 1 do Buffer.add_string b (Printf.sprintf "%02x" (Char.code (Bytes.get buf i))) done;
+      Buffer.contents b
+    end in
+  let k = if n > 64 then 64 else n in
+  Printf.sprintf "%s:%s:%s:%s" (token_of_int n) (Digest.to_hex (Digest.bytes buf)) (hex_sub 0 k) (hex_sub (n - k) k)
+
 let register () =
+  (* a recording (FlvFileWriter, every call pattern of lal's callers: the file is header + tags in order whatever the
+     mode) read back by FlvFileReader; digest output *)
+  Registry.register "c11.rec" (function
+      | [_mode; tags] ->
+        let tags = parse_tags tags in
+        let raws = Stdlib.List.map (fun (t, ts, p) -> FlvTag.pack_tag t ts p) tags in
+        let file = FlvTag.flv_record (bytes_of_token "abababab") raws in
+        let back = FlvTag.flv_file_read file in
+        Printf.sprintf "%s %d %s" (digest file) (Stdlib.List.length back)
+          (if back = [] then "-" else String.concat "," (Stdlib.List.map (fun (t : FlvTag.tag) ->
+               Printf.sprintf "%s:%s:%s:%s"
+                 (token_of_n t.FlvTag.tg_header.FlvTag.th_type)
+                 (token_of_n t.FlvTag.tg_header.FlvTag.th_size)
+                 (token_of_n t.FlvTag.tg_header.FlvTag.th_ts)
+                 (digest t.FlvTag.tg_raw)) back))
+      | _ -> "bad-args");
   Registry.register "c11.pack" (function
       | [t; ts; p] -> token_of_bytes (FlvTag.pack_tag (n_of_token t) (n_of_token ts) (bytes_of_token p))
       | _ -> "bad-args");
